@@ -447,6 +447,38 @@ def voxel_flat(ctx, grid, samples, cubes, axis):
     ctx.check_true('filled.some', any(f == 1 for f in filled))
 
 
+@scenario('C20', fns=['voxelize.voxelize', '_voxelize.generate_voxel_grid', '_voxelize.find_inouts_st', 'multi.AbstractContainer.evalpts'],
+          quick=[dict(grid=[3, 3, 3], samples=2, count=2), dict(grid=[3, 4, 3], samples=2, count=3)])
+def voxel_container(ctx, grid, samples, count):
+    """requires: a container of `count` axis-aligned boxes (trilinear volumes) whose bounding boxes overlap
+       ensures : the result is the concatenation, shape by shape, of each shape's own grid (covering ITS bounding box) and
+                 flags: a voxel of shape k is filled exactly when a sampled point OF SHAPE k lies in it"""
+    vx = ctx.geomdl('voxelize')
+    multi = ctx.geomdl('multi')
+    vols, boxes = [], []
+    for k in range(count):
+        # the corner of every later box lies strictly inside an interior voxel of the boxes before it
+        corner = [ctx.lit(Fraction(6 * k, 5)), ctx.lit(Fraction(3 * k, 5)), ctx.lit(Fraction(4 * k, 5))]
+        ext = [ctx.lit(Fraction(2 + k, 1)), ctx.lit(1), ctx.lit(Fraction(3, 2))]
+        v = _trilinear(ctx, corner, ext)
+        v.sample_size = samples
+        vols.append(v)
+        boxes.append([list(corner), [c + e for c, e in zip(corner, ext)]])
+    own = [[list(p) for p in v.evalpts] for v in vols]         # each shape's sampled points, read before the call
+    cont = multi.VolumeContainer(*vols)
+    g, filled = vx.voxelize(cont, grid_size=tuple(grid))
+    per = grid[0] * grid[1] * grid[2]
+    ctx.check_true('grid.len', len(g) == per * count and len(filled) == per * count, 'len(grid) = %d' % len(g))
+    for k, v in enumerate(list(cont)):
+        gk, fk = g[k * per:(k + 1) * per], filled[k * per:(k + 1) * per]
+        pts = own[k]
+        _check_cover(ctx, gk, boxes[k])
+        for j, (lo, hi) in enumerate(gk):
+            want = any(_inside(p, lo, hi, VOX_TOL) for p in pts)
+            ctx.check_true('shape%d.filled[%d]=exists_own_sample_inside' % (k, j), fk[j] in (0, 1) and (fk[j] == 1) == want,
+                           'filled = %r, some sampled point of this shape inside: %r' % (fk[j], want))
+
+
 # ------------------------------------------------------------------------------------------------
 # control points that are active at a parameter
 # ------------------------------------------------------------------------------------------------
